@@ -243,11 +243,47 @@ CHECKS["C20"] = dict(
     technique="TLA+ spec + TLC; fresh-process scenario replay; TLC validation of paired run observations",
     design="3/C20")
 
+CHECKS["C15"] = dict(
+    level="exploration",
+    text="InformedLoops.tla transcribes the attempt loops of PathLengthDirectInfSampler (both overloads, PHS pruning, "
+         "whole-space/PHS switch, 1/k keep rule), RejectionInfSampler and OrderedInfSampler (batch queue) over a scripted "
+         "environment; TLC proves success => in bounds, cost < max, cost >= min, attempts <= numIters, false only when "
+         "exhausted, ordered output sorted and below the bound, and every script (19k / 731k) is replayed on the real classes "
+         "through a scripted/counting state space, recorded attempt sequences being validated by TLC as model behaviours; "
+         "MultiFocus.tla proves by exact counting on a cell universe that region-by-measure + uniform cell + 1/k acceptance + "
+         "bounds rejection returns every cell of the union in bounds with the same probability and no other (model mutations "
+         "rejected); recorded Sample/Surface/Measure/InPhs/Hist observations (own bounds test, long-double focal sums, "
+         "analytic volumes, interval-quadrature bin areas; R^n, SE(2), SE(3); direct/rejection/ordered/wrapper; dims 2-10) "
+         "are judged by TLC against InformedContract.tla, uniformity with integer Bernstein and chi-square bounds (false "
+         "alarm < 1e-12 per run).",
+    note="Uniformity is decided at bin resolution on seeded runs (2e5 / 1e6 samples per histogram), not as a distribution; "
+         "RNG not scripted; measure for several start/goal pairs judged as the documented sum; bound == focal distance judged "
+         "only for termination; known findings: rounding at coarse scales, permanent PHS pruning.",
+    technique="TLA+ statement-level loop model + TLC, scripted-environment replay, TLC trace validation of recorded attempt "
+              "sequences, exact counting model with model mutations, TLC trace validation of integer-valued statistical observations",
+    design="3/C15")
+CHECKS["C16"] = dict(
+    level="exploration",
+    text="Geodesic.tla transcribes the three discreteGeodesic loops (projection, atlas, tangent bundle), geodesicInterpolate and both "
+         "ConstrainedMotionValidator::checkMotion forms over an exact lattice sub-domain with a scripted environment (cells where the "
+         "projection fails or jumps, NaN cells, invalid cells, chart radius, chart limit); TLC checks states on the manifold, steps <= "
+         "lambda*delta, success => end within delta, interpolate returns a stored satisfying state (from at t=0, the last at t=1), "
+         "checkMotion => geodesic succeeded, for every configuration (39k / 454k states) and every behaviour (11k / 128k) is replayed "
+         "on the real spaces through the harness's own Constraint and validity checker (3 embeddings, every loop exit taken); samplers, "
+         "valid samplers, interpolation, geodesics, motion checks and 12 planners on 10 real manifolds (sphere, torus, planes, "
+         "intersections, products, co-dimension 1..3) x 3 space kinds x swept parameters are recorded with facts from the harness's own "
+         "closed-form constraint functions and judged by TLC against ConstrainedContract.tla (one clause per sentence; tangent-bundle "
+         "geodesics exempt, nothing else).",
+    note="Exact model only on flat lattices: atlas exits needing curvature (step back-off, epsilon step, lambda ball) are transcribed but "
+         "unreachable there; Newton convergence itself is only sampled (seeds/parameter sets sampled, tolerance margin 1e-9 rel + 1e-12); "
+         "known finding: samplers clamp to the bounds after projecting (planes).",
+    technique="TLA+ statement-level spec + TLC exhaustive; scripted-environment replay of every model behaviour; TLC trace validation "
+              "(report-and-advance) of recorded facts with an independent closed-form oracle",
+    design="3/C16")
+
 NOT_APPLICABLE = {
     "C14": "every clause is a floating-point relation over sqrt/atan2 on a pure function; no discrete state or exact "
            "sub-domain for a TLA+ model to decide (the validators' subdivision scheme is covered under C05)",
-    "C15": "geometry of a rotated ball in R^n and a statistical uniformity claim; TLC has no reals and cannot decide a distribution",
-    "C16": "adherence to a manifold is convergence of a Newton projection within a tolerance; nothing discrete to model",
 }
 
 # properties whose checks are not built yet are listed as not claimed (kept current as checks land)
